@@ -8,7 +8,6 @@ use lsp_types::{
 use notify::{Config, RecommendedWatcher, RecursiveMode, Watcher};
 use std::{
     path::{Path, PathBuf},
-    sync::mpsc::channel,
     time::Duration,
 };
 
@@ -165,7 +164,9 @@ async fn register_files_watch_use_fsnotify(
     watch_roots: Vec<PathBuf>,
     match_file_pattern: WorkspaceFileMatcher,
 ) -> bool {
-    let (tx, rx) = channel();
+    // the notify callback runs on the watcher's own thread; the forwarding task must not block a
+    // runtime worker while it waits for events, so an async channel is used
+    let (tx, mut rx) = tokio::sync::mpsc::unbounded_channel();
     let config = Config::default().with_poll_interval(Duration::from_secs(5));
     let mut watcher = match RecommendedWatcher::new(
         move |res| {
@@ -206,8 +207,8 @@ async fn register_files_watch_use_fsnotify(
 
     tokio::spawn(async move {
         loop {
-            match rx.recv() {
-                Ok(event) => {
+            match rx.recv().await {
+                Some(event) => {
                     let typ = match event.kind {
                         notify::event::EventKind::Create(_) => lsp_types::FileChangeType::CREATED,
                         notify::event::EventKind::Modify(_) => lsp_types::FileChangeType::CHANGED,
@@ -233,8 +234,8 @@ async fn register_files_watch_use_fsnotify(
                     };
                     on_did_change_watched_files(context.clone(), params).await;
                 }
-                Err(e) => {
-                    warn!("watch files notify error: {:?}", e);
+                None => {
+                    warn!("watch files notify channel closed");
                     break;
                 }
             }
